@@ -15,6 +15,7 @@ import immutables
 
 import vlib.shims  # noqa: F401
 from vlib import cov
+from vlib.concrete import untraced, concrete_index, concrete_bool
 
 from edb import errors
 from edb.edgeql import ast as qlast
@@ -260,9 +261,26 @@ def api_step(cs, m: Model, op: int, ni: int, serial: int) -> bool:
 def api_sequence(t0: int, k: int, o0: int, n0: int, o1: int, n1: int, o2: int, n2: int,
                  o3: int, n3: int, o4: int, n4: int) -> bool:
     """k operations from a fresh connection state."""
+    # choices -> concrete values (forks), then native execution
+    k = concrete_index(k, 6)
+    ops = []
+    for o, n in ((o0, n0), (o1, n1), (o2, n2), (o3, n3), (o4, n4)):
+        if len(ops) >= k:
+            break
+        oc = concrete_index(o, 9)
+        # the name only matters for savepoint statements
+        nc = concrete_index(n, 4) if oc in (SAVEPOINT, RELEASE, ROLLBACK_TO) else 0
+        ops.append((oc, nc))
+    for o, n in ops:
+        if o < 0 or n < 0:
+            return True          # outside the stated bound
+    with untraced():
+        return _api_sequence(t0, k, ops)
+
+
+def _api_sequence(t0, k, ops) -> bool:
     cs = new_state(t0)
     m = Model()
-    ops = [(o0, n0), (o1, n1), (o2, n2), (o3, n3), (o4, n4)]
     for i in range(5):
         if i >= k:
             break
@@ -525,22 +543,57 @@ def script(t0: int, d: int, pn0: int, pc0: int, pn1: int, pc1: int, pn2: int, pc
     """One transaction block: START, recipe prefix, k free statements; f_i
     places a backend failure on free statement i (only DDL / CONFIGURE can
     fail in the backend)."""
-    steps = expand(d, pn0, pc0, pn1, pc1, pn2, pc2, k,
-                   [(o0, n0, f0), (o1, n1, f1), (o2, n2, f2), (o3, n3, f3)])
-    if run_steps(t0, steps):
-        return True
-    # Known finding F11 (see /verif/known_findings.json) is excluded here -
-    # evaluated only on failing paths, so that the predicate does not fork the
-    # passing ones.  `script_raw` is the un-narrowed obligation.
-    return dup_release_rollback(steps)
+    steps = _concrete_steps(d, pn0, pc0, pn1, pc1, pn2, pc2, k,
+                            [(o0, n0, f0), (o1, n1, f1), (o2, n2, f2), (o3, n3, f3)])
+    if steps is None:
+        return True              # outside the stated bound
+    with untraced():
+        if run_steps(t0, steps):
+            return True
+        # Known finding F11 (see /verif/known_findings.json) is excluded here;
+        # `script_raw` is the un-narrowed obligation.
+        return dup_release_rollback(steps)
 
 
 def script_raw(t0: int, d: int, pn0: int, pc0: int, pn1: int, pc1: int, pn2: int, pc2: int,
                k: int, o0: int, n0: int, f0: bool, o1: int, n1: int, f1: bool,
                o2: int, n2: int, f2: bool, o3: int, n3: int, f3: bool) -> bool:
-    steps = expand(d, pn0, pc0, pn1, pc1, pn2, pc2, k,
-                   [(o0, n0, f0), (o1, n1, f1), (o2, n2, f2), (o3, n3, f3)])
-    return run_steps(t0, steps)
+    steps = _concrete_steps(d, pn0, pc0, pn1, pc1, pn2, pc2, k,
+                            [(o0, n0, f0), (o1, n1, f1), (o2, n2, f2), (o3, n3, f3)])
+    if steps is None:
+        return True
+    with untraced():
+        return run_steps(t0, steps)
+
+
+def _concrete_steps(d, pn0, pc0, pn1, pc1, pn2, pc2, k, suffix):
+    """Make every choice concrete (chains of forks): the history is then a
+    concrete statement list which runs natively."""
+    d = concrete_index(d, 4)
+    k = concrete_index(k, 5)
+    if d < 0 or k < 0:
+        return None
+    pre = []
+    for pn, pc in ((pn0, pc0), (pn1, pc1), (pn2, pc2)):
+        if len(pre) >= d:
+            pre.append((0, 0))
+            continue
+        a, b = concrete_index(pn, 4), concrete_index(pc, 4)
+        if a < 0 or b < 0:
+            return None
+        pre.append((a, b))
+    suf = []
+    for o, n, f in suffix:
+        if len(suf) >= k:
+            suf.append((0, 0, False))
+            continue
+        a = concrete_index(o, 9)
+        b = concrete_index(n, 4) if a in (SAVEPOINT, RELEASE, ROLLBACK_TO) else 0
+        if a < 0 or b < 0:
+            return None
+        fault = concrete_bool(f) if a in (SET_CONFIG, DDL) else False
+        suf.append((a, b, fault))
+    return expand(d, pre[0][0], pre[0][1], pre[1][0], pre[1][1], pre[2][0], pre[2][1], k, suf)
 
 
 def run_steps(t0: int, steps) -> bool:
